@@ -60,10 +60,11 @@ def rerun(parts):
     dirs = [d for base in ("refactors", "features") for d in sorted(glob.glob(os.path.join(VERIF, base, "*")))
             if os.path.exists(os.path.join(d, "patch.diff"))]
     if parts:
-        dirs = [d for d in dirs if any(p in os.path.basename(d) for p in parts)]
+        dirs = [d for d in dirs if any(p in "%s/%s" % (os.path.basename(os.path.dirname(d)), os.path.basename(d)) for p in parts)]
 
     def one(d):
-        return os.path.basename(d), run_checks(os.path.join(d, "patch.diff"), os.path.basename(d))
+        label = "%s/%s" % (os.path.basename(os.path.dirname(d)), os.path.basename(d))
+        return label, run_checks(os.path.join(d, "patch.diff"), label.replace("/", "-"))
     with ThreadPoolExecutor(max_workers=8) as ex:
         res = list(ex.map(one, dirs))
     bad = 0
